@@ -17,7 +17,7 @@ THEOREMS = ["OdeVerif.C01.assemble_ok_linear", "OdeVerif.C01.flow_identity", "Od
             "OdeVerif.Refine.connectedComponentIndices_refines", "OdeVerif.Refine.mirror_spec", "OdeVerif.Refine.mem_groupByLabel", "OdeVerif.Refine.groupByLabel_same", "OdeVerif.Refine.fromJsonToShapes_keys", "OdeVerif.Refine.fromJsonToShapes_time_not_param"]
 LEVEL = "proof"
 LINEAR_SHAPES = ["isolated", "chain", "fan_in", "fan_out", "cycle", "antisym", "nonadjacent", "offset_single", "offset_in_group", "depends_on_offset",
-                 "higher_order", "higher_order_offset", "analytic_dep_numeric", "dense3", "const_drift", "offset_single", "chain_from_offset", "tiny_literals", "time_dependent"]
+                 "higher_order", "higher_order_offset", "analytic_dep_numeric", "dense3", "const_drift", "offset_single", "chain_from_offset", "tiny_literals", "time_dependent", "second_order_real", "sum_coefficients", "exact_constants"]
 
 
 def gen(ctx, n):
@@ -28,8 +28,13 @@ def gen(ctx, n):
             out.append(dict(c["case"], corpus=c["_file"]))
     i = 0
     while len(out) < n:
-        shape = "time_dependent" if i % 8 == 5 else LINEAR_SHAPES[i % len(LINEAR_SHAPES)]
+        shape = "time_dependent" if i % 8 == 5 else "second_order_real" if i % 8 == 2 else LINEAR_SHAPES[i % len(LINEAR_SHAPES)]
         g = systems.gen_system(rng, shape=shape, with_params=rng.choice(["none", "all", "all"]))
+        if shape == "second_order_real" and i % 16 == 2:
+            # the initial values of the second-order entry written derivative first (the order of the keys carries no meaning)
+            for d in g["indict"]["dynamics"]:
+                if len(d.get("initial_values", {})) > 1:
+                    d["initial_values"] = {k: d["initial_values"][k] for k in sorted(d["initial_values"], key=lambda q: -q.count("'"))}
         if shape == "time_dependent" and "options" not in g["indict"] and rng.random() < 0.5:
             systems.rename_time(g["indict"], rng.choice(systems.TIME_NAMES))       # a non-autonomous equation must never get a step-size-only update
         k = len(g["indict"]["dynamics"])
